@@ -30,6 +30,7 @@ func c02(c *core.Check) {
 	c02CancelledPublishesNothing(c)
 	c02SpanningResume(c)
 	c02FirstLetter(c)
+	c02PrefixAppend(c)
 }
 
 func isResumeStack(t types.Type) bool {
